@@ -6,10 +6,15 @@
 // calls pop(); the write callback is the closure of sendLoop (copied below: net.Buffers.WriteTo on a
 // connection, return len(bufs)-1) over a scripted connection. synctest.Wait() after every single push and
 // every operation, so each step is one critical section and the fake clock makes the swap timer exact.
-// sendLoop itself (reconnects, deadlines, real TCP) is not run here: it is outside the model (see checks/C31.json).
+// sendLoop itself (reconnects, deadlines, real TCP, its own write closure) runs in real time in TestVerifEgressRT
+// (balancer_rt_verif_test.go).
 package balancer
 
 import (
+	"reflect"
+	"regexp"
+	"runtime"
+
 	"encoding/binary"
 	"errors"
 	"fmt"
@@ -28,6 +33,31 @@ import (
 )
 
 var errVbWrite = errors.New("verif: scripted write error")
+
+// The write closure of sendLoop cannot be called from outside sendLoop, so the synctest harness runs a copy of
+// it. What the copy returns on an error is read from the source the package was compiled from (the file that
+// defines sendLoop), so that a repair of - or a regression in - the real closure is followed by the copy; the
+// real closure itself runs in TestVerifEgressRT.
+var vbClosureRe = regexp.MustCompile(`return len\(bufs\)\s*(-\s*1)?\s*,\s*err\b`)
+
+func vbClosureSkipsFailed() (bool, error) {
+	f := runtime.FuncForPC(reflect.ValueOf((*tcpSender).sendLoop).Pointer())
+	if f == nil {
+		return false, errors.New("verif: cannot locate sendLoop")
+	}
+	file, _ := f.FileLine(f.Entry())
+	src, err := os.ReadFile(file)
+	if err != nil {
+		return false, err
+	}
+	m := vbClosureRe.FindAllSubmatch(src, -1)
+	if len(m) != 1 {
+		return false, fmt.Errorf("verif: %d write-closure return statements recognised in %s; update the harness copy", len(m), file)
+	}
+	return len(m[0][1]) > 0, nil
+}
+
+var vbSkipFailed = true
 
 // scripted connection: calls 0..failAt-1 succeed, call failAt returns (partial, err); failAt<0 never fails
 type vbConn struct {
@@ -227,13 +257,16 @@ func (w *vbWorld) callback(i int) func(pkts [][]byte) (int, error) {
 		_, err := v.bufs.WriteTo(conn)
 		v.lastK = len(v.bufs)
 		if err != nil {
-			if len(v.bufs) > 0 {
+			if len(v.bufs) > 0 && vbSkipFailed {
 				v.failed = append(v.failed, v.batch[len(v.batch)-len(v.bufs)])
 			}
 			v.conns = append(v.conns, &vbConn{failAt: -1}) // sendLoop closes the connection and dials again
 		}
 		v.state.Store(1)
-		return len(v.bufs) - 1, err
+		if vbSkipFailed {
+			return len(v.bufs) - 1, err // not resend for last
+		}
+		return len(v.bufs), err
 	}
 }
 
@@ -588,19 +621,26 @@ func TestVerifBalancer(t *testing.T) {
 	r := vu.NewRng(seed)
 	o := vu.NewOut(outDir)
 	defer o.Close()
+	skip, err := vbClosureSkipsFailed()
+	if err != nil {
+		t.Fatal(err)
+	}
+	vbSkipFailed = skip
+	o.Hist[fmt.Sprintf("closure_skips_failed_%v", skip)]++
 
 	// witness of finding F-C31: the sender waits for a batch, one packet arrives, the timer fires without
 	// waking the sender, no further packet arrives: the packet stays in the buffer
 	wt := vbRun(vbScript([]vbOp{{kind: 'P', a: true}, {kind: 'W', n: 1, l: 16}, {kind: 'S', n: 1000}, {kind: 'S', n: 5000}}), false)
 	wt.emit(o, "witness-F-C31")
-	if wt.stuck {
+	// second shape: the packet arrives while the sender is writing; the swap after the write waits and (code as
+	// it is) is never woken. Every operation of this script is applicable with and without the timer repair.
+	wt2 := vbRun(vbScript([]vbOp{{kind: 'W', n: int64(bufferLen * 20 / 100), l: 16}, {kind: 'P', a: true}, {kind: 'W', n: 1, l: 16}, {kind: 'K', a: true}, {kind: 'S', n: 3000}}), false)
+	wt2.emit(o, "witness-F-C31-postwrite")
+	if wt.stuck || wt2.stuck {
 		o.Finding("F-C31", "reproduced")
 	} else {
 		o.Finding("F-C31", "gone")
 	}
-	// second shape: the packet arrives while the sender is writing; the swap after the write waits and is never woken
-	wt2 := vbRun(vbScript([]vbOp{{kind: 'P', a: true}, {kind: 'S', n: 1000}, {kind: 'W', n: 1, l: 16}, {kind: 'W', n: 1, l: 16}, {kind: 'K', a: true}, {kind: 'S', n: 3000}}), false)
-	wt2.emit(o, "witness-F-C31-postwrite")
 
 	for i := 0; i < n; i++ {
 		mode := r.Intn(10) // 0-4 sparse, 5-7 burst (buffers fill up), 8-9 mixed
